@@ -213,9 +213,14 @@ static int unwrap(const unsigned char *p, size_t n, int b64, vs_buf *out) {
   return 1;
 }
 
+static char g_opname[16] = "?";
 static void on_alarm(int sig) {
-  static const char m[] = "sess WEDGE rfbProcessEvents did not return within 6 s\n";
-  (void)sig; fflush(stdout); if (write(1, m, sizeof m - 1) < 0) {} _exit(3);
+  /* watchdog: every op that enters the library must return; otherwise report and end this driver */
+  char m[96]; int k;
+  (void)sig; fflush(stdout);
+  k = snprintf(m, sizeof m, "%s WEDGE the library did not return within the watchdog time\n", g_opname);
+  if (write(1, m, (size_t)k) < 0) {}
+  _exit(3);
 }
 
 static void do_sess(char *arg, int threaded) {
@@ -302,7 +307,7 @@ static void do_sess(char *arg, int threaded) {
     }
   }
   g_wrap_fd = -1;
-  alarm(0);
+  alarm(8);                        /* keep watching the teardown */
   alive = 0;
   { rfbClientIteratorPtr it = rfbGetClientIterator(s); alive = rfbClientIteratorNext(it) != NULL; rfbReleaseClientIterator(it); }
   if (ws) {
@@ -336,6 +341,8 @@ int main(void) {
     if (ll == 0) continue;
     if (!strncmp(line, "case ", 5)) { new_ctx(); printf("%s\n", line); continue; }
     arg = strchr(line, ' '); if (arg) *arg++ = 0; else arg = line + ll;
+    snprintf(g_opname, sizeof g_opname, "%s", line);
+    alarm(8);                       /* per-op watchdog (sess re-arms its own) */
     if (!strcmp(line, "ctx")) { new_ctx(); printf("ctx\n"); }
     else if (!strcmp(line, "stream")) {
       unsigned char *b; size_t n = unhex(arg, &b);
@@ -358,7 +365,7 @@ int main(void) {
     else if (!strcmp(line, "dec")) {
       int len = atoi(arg), ret, e;
       char *dst;
-      if (g_fault) { printf("dec FAULT\n"); continue; }
+      if (g_fault) { printf("dec FAULT\n"); alarm(0); continue; }
       dst = (char *)malloc((size_t)(len > 0 ? len : 0) + 1);
       g_rqlen = 0; g_rq[0] = 0;
       errno = 0;
@@ -437,6 +444,7 @@ int main(void) {
     else if (!strcmp(line, "sess")) do_sess(arg, 0);
     else if (!strcmp(line, "sesst")) do_sess(arg, 1);
     else printf("?? %s\n", line);
+    alarm(0);
   }
   return 0;
 }
